@@ -204,6 +204,34 @@ enum SeqVm<'a> {
     NoData(rbpf::EbpfVmNoData<'a>),
 }
 
+/// Built-in helpers that exist in both builds: gather_bytes, memfrob, strcmp.
+fn eval_hlp(v: &Value) -> String {
+    let name = v["name"].as_str().unwrap_or("").to_string();
+    let a: Vec<u64> = v["args"].as_array().map(|x| x.iter().map(|y| y.as_u64().unwrap_or(0)).collect()).unwrap_or_default();
+    let bufs: Vec<Vec<u8>> = v["bufs"].as_array().map(|x| x.iter().map(|y| unhexs(y.as_str().unwrap_or(""))).collect()).unwrap_or_default();
+    let r = caught(|| match name.as_str() {
+        "gather" => format!("{:#x}", rbpf::helpers::gather_bytes(a[0], a[1], a[2], a[3], a[4])),
+        "memfrob" => {
+            let mut b = bufs[0].clone();
+            let off = a[0] as usize;
+            let len = a[1];
+            let r = rbpf::helpers::memfrob(b.as_mut_ptr() as u64 + off as u64, len, a[2], a[3], a[4]);
+            format!("{r:#x}:{}", hexs(&b))
+        }
+        _ => {
+            let mut x = bufs[0].clone();
+            x.push(0);
+            let mut y = bufs[1].clone();
+            y.push(0);
+            format!("{:#x}", rbpf::helpers::strcmp(x.as_ptr() as u64, y.as_ptr() as u64, a[0], a[1], a[2]))
+        }
+    });
+    match r {
+        Ok(t) => t,
+        Err(()) => "panic".into(),
+    }
+}
+
 fn helper_other(a: u64, _b: u64, _c: u64, _d: u64, _e: u64) -> u64 {
     a.wrapping_add(0x7700)
 }
@@ -347,6 +375,7 @@ pub fn eval(v: &Value) -> String {
             }
         }
         "run" => eval_run(v),
+        "hlp" => eval_hlp(v),
         "seq" => eval_seq(v),
         _ => "unknown-case-kind".into(),
     }
